@@ -901,7 +901,6 @@ package decimal128
 //@ ensures len(data) != 16 ==> *d == old(*d)
 //@ ensures len(data) == 16 ==> hi(*d) == data[0]*72057594037927936 + data[1]*281474976710656 + data[2]*1099511627776 + data[3]*4294967296 + data[4]*16777216 + data[5]*65536 + data[6]*256 + data[7]
 //@ ensures len(data) == 16 ==> lo(*d) == data[8]*72057594037927936 + data[9]*281474976710656 + data[10]*1099511627776 + data[11]*4294967296 + data[12]*16777216 + data[13]*65536 + data[14]*256 + data[15]
-//@ assigns nothing
 //@ props C12 C20
 
 // Round trip and uniqueness of the byte form: base-256 digits of a word are unique.
@@ -2589,12 +2588,23 @@ package decimal128
 // exponent form exactly when the decimal exponent X of the leading digit (after rounding to the
 // precision) is below -4 or at least the precision P (6 when absent, 1 when 0; with '#' and no
 // precision 6), the strconv rule. The bytes themselves are outside this contract.
+// Decimal.Format (C07): how the fmt.State is read. Flags, width and precision reach Decimal.format
+// unchanged, except that '-' overrides '0' as package fmt does for float64 (padding a number with
+// zeros on the right would change the value printed). fmt.State is modelled (trusted): see govc fmtState.
+//@ func Decimal.Format
+//@ logical V real
+//@ requires !special(d) ==> V >= 0 && rs(V, bexp(d)) == coef(d)
+//@ call Decimal.format#1: V = V
+//@ assert before "f.Write(d.format(nil, &args))": args.padZero == (fmtflag(48) && !fmtflag(45)) && args.padRight == fmtflag(45) && args.printSign == fmtflag(43) && args.padSign == fmtflag(32) && args.forceDP == fmtflag(35)
+//@ assert before "f.Write(d.format(nil, &args))": args.wid == ite(fmthaswid(), fmtwid(), 0) && args.prec == ite(fmthasprec(), fmtprec(), 0 - 1) && args.verb == verb % 256
+//@ props C07 C20
+
 //@ func Decimal.format
 //@ uses rssteps=1,2,3,4,5,6,7,8,9,10,11,12,13,14,15,16,17,18,19,20,21,22,23,24,25,26,27,28,29,30,31,32,33,34,35,36,37,38,39 rsmono=0,1,2,3,4,5,6,7,8,9,10,11,12,13,14,15,16,17,18,19,20,21,22,23,24,25,26,27,28,29,30,31,32,33,34,35,36,37,38,39
 //@ returns (out)
 //@ logical V real
 //@ requires !special(d) ==> V >= 0 && rs(V, bexp(d)) == coef(d)
-//@ requires !special(d) && args.prec <= 100000000 - 100 && args.wid <= 100000000
+//@ requires !special(d) && args.prec <= 100000000 - 100 && args.wid <= 100000000 && args.wid >= 0 - 100000000
 //@ call Decimal.digits#1: V = V
 //@ define X = (digs.exp + ite(digs.ndig != 0, digs.ndig - 1, 0))
 //@ define P = ite(args.prec < 0, 6, ite(args.prec == 0, 1, args.prec))
@@ -2626,7 +2636,7 @@ package decimal128
 //@ define A0 = len(old(buf))
 //@ ensures isnan(d) ==> len(out) == A0 + 3 && out[A0] == 78 && out[A0 + 1] == 97 && out[A0 + 2] == 78
 //@ ensures isinf(d) ==> len(out) == A0 + 4 && out[A0] == ite(sign(d), 45, 43) && out[A0 + 1] == 73 && out[A0 + 2] == 110 && out[A0 + 3] == 102
-//@ ensures special(d) ==> (forall k in 0..A0 - 1: out[k] == old(buf)[k])
+//@ ensures special(d) ==> (forall k in 0..A0 - 1: out[k] == old(buf[k]))
 //@ props C06 C07 C20
 
 // digits.fmtE (C06, C07), the exponent field only: after the mantissa the output carries the letter
@@ -2635,11 +2645,19 @@ package decimal128
 // this contract.)
 //@ func digits.fmtE
 //@ returns (out)
-//@ requires 0 <= d.ndig && d.ndig <= 39 && 0 - 9900 <= d.exp && d.exp <= 9900 && width <= 100000000 && prec <= 100000000
+//@ requires 0 <= d.ndig && d.ndig <= 39 && 0 - 9900 <= d.exp && d.exp <= 9900 && width <= 100000000 && width >= 0 - 100000000 && prec <= 100000000
 //@ define AX = (d.exp + ite(d.ndig > 1, d.ndig - 1, 0))
 //@ define AE = ite(AX < 0, 0 - AX, AX)
 //@ define L = len(buf)
+//@ define DG = arr(d.dig)
 //@ define SG = ite(AX < 0, 45, 43)
+//@ define N0 = len(old(buf))
+//@ define SL = ite(d.neg || printSign || padSign, 1, 0)
+//@ define MB = (N0 + SL)
+//@ define FR = ite(prec > 0, 1 + ite(d.ndig - 1 > prec, d.ndig - 1, prec), ite(forceDP, 1, 0))
+//@ define XD = ite(AE < 10, ite(padExp, 2, 1), ite(AE < 100, 2, ite(AE < 1000, 3, 4)))
+//@ define LEN = (MB + 1 + FR + 2 + XD)
+//@ define X0 = (MB + 1 + FR)
 //@ assert after "buf = append(buf, '0'+byte(exp))": exp == AE && AE < 10 && !padExp && L >= 3 && buf[L - 1] == 48 + AE && buf[L - 2] == SG && buf[L - 3] == e
 //@ assert after "buf = append(buf, '0', '0'+byte(exp))": exp == AE && AE < 10 && padExp && L >= 4 && buf[L - 1] == 48 + AE && buf[L - 2] == 48 && buf[L - 3] == SG && buf[L - 4] == e
 //@ assert after "buf = append(buf, '0'+byte(exp/10), '0'+byte(exp%10))": exp == AE && 10 <= AE && AE < 100 && L >= 4 && 48 <= buf[L - 1] && buf[L - 1] <= 57 && 48 <= buf[L - 2] && buf[L - 2] <= 57 && 10 * (buf[L - 2] - 48) + (buf[L - 1] - 48) == AE && buf[L - 3] == SG && buf[L - 4] == e
@@ -2649,9 +2667,16 @@ package decimal128
 //@ assert after "buf = append(buf, '0'+byte(exp/1000), '0'+byte(exp/100%10), '0'+byte(exp/10%10), '0'+byte(exp%10))": buf[L - 3] - 48 == (exp / 100) % 10
 //@ assert after "buf = append(buf, '0'+byte(exp/1000), '0'+byte(exp/100%10), '0'+byte(exp/10%10), '0'+byte(exp%10))": buf[L - 2] - 48 == (exp / 10) % 10
 //@ assert after "buf = append(buf, '0'+byte(exp/1000), '0'+byte(exp/100%10), '0'+byte(exp/10%10), '0'+byte(exp%10))": exp == AE && 1000 <= AE && AE < 10000 && L >= 6 && 48 <= buf[L - 1] && buf[L - 1] <= 57 && 48 <= buf[L - 2] && buf[L - 2] <= 57 && 48 <= buf[L - 3] && buf[L - 3] <= 57 && 48 <= buf[L - 4] && buf[L - 4] <= 57 && 1000 * (buf[L - 4] - 48) + 100 * (buf[L - 3] - 48) + 10 * (buf[L - 2] - 48) + (buf[L - 1] - 48) == AE && buf[L - 5] == SG && buf[L - 6] == e
-//@ loop 1: invariant 0 <= i
+//@ loop 1: invariant 0 <= i && prec > 0 && i >= ite(d.ndig > 1, d.ndig - 1, 0) && i <= ite(d.ndig - 1 > prec, d.ndig - 1, prec) && len(buf) == MB + 2 + i
+//@ loop 1: invariant (SL == 1 ==> buf[N0] == ite(d.neg, 45, ite(printSign, 43, 32))) && buf[MB] == ite(d.ndig == 0, 48, d.dig[0]) && buf[MB + 1] == 46
+//@ loop 1: invariant forall k in MB + 2..MB + d.ndig: buf[k] == DG[k - MB - 1]
+//@ loop 1: invariant forall k in MB + 2 + ite(d.ndig > 1, d.ndig - 1, 0)..MB + 1 + i: buf[k] == 48
+//@ loop 1: invariant forall k in 0..N0 - 1: buf[k] == old(buf[k])
 //@ loop 1: decreases prec - i
-//@ cut before "buf = append(buf, e)": havoc buf: len(buf) >= 0
+//@ cut before "buf = append(buf, e)": havoc buf: len(buf) == MB + 1 + FR && (SL == 1 ==> buf[N0] == ite(d.neg, 45, ite(printSign, 43, 32))) && buf[MB] == ite(d.ndig == 0, 48, d.dig[0]) && (prec > 0 ==> buf[MB + 1] == 46) && (prec <= 0 && forceDP ==> buf[MB + 1] == 46) && (prec > 0 ==> (forall k in MB + 2..MB + d.ndig: buf[k] == DG[k - MB - 1]) && (forall k in MB + 2 + ite(d.ndig > 1, d.ndig - 1, 0)..MB + FR: buf[k] == 48)) && (forall k in 0..N0 - 1: buf[k] == old(buf[k]))
+//@ cut before "buf = d.pad(buf, start, width, printSign, padSign, padRight, padZero)": havoc buf: len(buf) == LEN && (forall k in 0..N0 - 1: buf[k] == old(buf[k]))
+//@ ensures len(out) == ite(width > LEN - N0, N0 + width, LEN)
+//@ ensures forall k in 0..N0 - 1: out[k] == old(buf[k])
 //@ props C06 C07 C20
 
 // ---------------------------------------------------------------------------------------------
@@ -2918,7 +2943,7 @@ package decimal128
 //@ ensures width <= 0 && isnan(d) && printSign ==> len(out) == N0 + 4 && out[N0] == 43 && out[N0 + 1] == 78 && out[N0 + 2] == 97 && out[N0 + 3] == 78
 //@ ensures width <= 0 && isinf(d) && sign(d) ==> len(out) == N0 + 4 && out[N0] == 45 && out[N0 + 1] == 73 && out[N0 + 2] == 110 && out[N0 + 3] == 102
 //@ ensures width <= 0 && isinf(d) && !sign(d) && !(padSign && !printSign) ==> len(out) == N0 + 4 && out[N0] == 43 && out[N0 + 1] == 73 && out[N0 + 2] == 110 && out[N0 + 3] == 102
-//@ ensures width <= 0 ==> (forall k in 0..N0 - 1: out[k] == old(buf)[k])
+//@ ensures width <= 0 ==> (forall k in 0..N0 - 1: out[k] == old(buf[k]))
 //@ loop 1: invariant n <= i && i <= width
 //@ loop 2: invariant 0 <= i && i <= p
 //@ props C06 C20
@@ -2943,4 +2968,35 @@ package decimal128
 //@ requires !special(d) ==> V >= 0 && rs(V, bexp(d)) == coef(d)
 //@ define A0 = len(old(buf))
 //@ ensures fst(format, len(format)) != 4 ==> len(out) == A0 + 10 && out[A0] == 37 && out[A0 + 1] == 33 && out[A0 + 2] == 40 && out[A0 + 9] == 41
+//@ props C07 C20
+
+// digits.pad (C07): width handling. The result is buf itself when it already has the width;
+// otherwise it has exactly width bytes: with '-' the text followed by the padding byte; without it
+// the padding first, except that with '0' padding a sign byte stays in front of the zeros.
+//@ func digits.pad
+//@ returns (out)
+//@ requires width <= 100000000 && width >= 0 - 100000000 && 0 <= start && start < len(buf)
+//@ define N0 = len(old(buf))
+//@ define S = start
+//@ define PC = ite(padZero, 48, 32)
+//@ define SGN = (padZero && (d.neg || printSign || padSign))
+//@ define P = (old(width) - (N0 - S))
+//@ ensures len(out) == ite(P > 0, S + width, N0)
+//@ ensures forall k in 0..S - 1: out[k] == old(buf[k])
+//@ ensures !padRight ==> (forall k in 0..S - 1: old(buf)[k] == old(buf[k]))
+//@ ensures P <= 0 ==> (forall k in S..N0 - 1: out[k] == old(buf[k]))
+//@ ensures P > 0 && padRight ==> (forall k in S..N0 - 1: out[k] == old(buf[k])) && (forall k in N0..S + width - 1: out[k] == PC)
+//@ ensures P > 0 && !padRight && !SGN ==> (forall k in S..S + P - 1: out[k] == PC) && (forall k in S + P..S + width - 1: out[k] == old(buf[k - P]))
+//@ ensures P > 0 && !padRight && SGN ==> out[S] == old(buf[S]) && (forall k in S + 1..S + P: out[k] == 48) && (forall k in S + P + 1..S + width - 1: out[k] == old(buf[k - P]))
+//@ loop 1: invariant 0 <= i && i <= p && p == P && len(buf) == N0 + i && padChar == PC && P > 0
+//@ loop 1: invariant forall k in 0..N0 - 1: buf[k] == old(buf[k])
+//@ loop 1: invariant forall k in N0..N0 + i - 1: buf[k] == PC
+//@ loop 1: decreases p - i
+//@ loop 2: invariant len(buf) == S + old(width) && padChar == PC && P > 0 && !padRight && p == S + ite(SGN, P + 1, P) && S + ite(SGN, 1, 0) <= i && i <= p
+//@ loop 2: invariant forall k in 0..S - 1: buf[k] == old(buf[k])
+//@ loop 2: invariant forall k in 0..S - 1: old(buf)[k] == old(buf[k])
+//@ loop 2: invariant forall k in p..S + old(width) - 1: buf[k] == old(buf[k - P])
+//@ loop 2: invariant forall k in S + ite(SGN, 1, 0)..i - 1: buf[k] == PC
+//@ loop 2: invariant SGN ==> buf[S] == old(buf[S])
+//@ loop 2: decreases p - i
 //@ props C07 C20
